@@ -153,7 +153,8 @@ def code_block(rng, clean=True) -> list[str]:
     if clean:
         while body and body[-1].strip() == "":
             body.pop()
-    return [fence + info] + body + [fence]
+    # a closing fence may be longer than the opening one
+    return [fence + info] + body + [fence + ch * (rng.choice([0, 0, 0, 1, 2]) if len(body) != 1 or body[0].strip() else 0)]
 
 
 def table(rng, **kw) -> list[str]:
